@@ -1,10 +1,502 @@
-import PysamlModel.Model.Encrypt
-import PysamlModel.Spec.C16
-import PysamlModel.Proofs.Sp
+/-
+  C16 — Encrypted assertions stay confidential and are recoverable only by the recipient.
+
+  Property theorems only (plus non-vacuity examples).  The statements quantify over every call of
+  `create_authn_response` the model covers — all keyword / configuration / default settings of the five
+  flags, PEFIM or not, any list of metadata key descriptors (any length, usable or not, any `use`), any
+  explicit certificate arguments — and, on the recipient's side, over every configuration, clock,
+  envelope and assertion content of the shared `Sp.process`, every set of private keys, damaged or
+  intact ciphertext.
+
+  The pinned code does not meet the property on two input classes (see `earlyReturnClass`,
+  `objectFormClass` in Spec/C16.lean): for those the full statements are kept as `def … _full : Prop`,
+  proved under the decidable side condition (`_partial`) and refuted from a concrete witness
+  (`_counterexample`).
+-/
+import PysamlModel.Proofs.C16
 
 namespace C16
 open Encrypt
 
-theorem C16_placeholder : True := trivial
+/-! ### facts about the arguments `_authn_response` hands to `_response` -/
+
+theorem effA_facts {c : Call} (h : effA c = true) :
+    c.rargs.encryptAssertion = true ∧ earlyReturn c.rargs = false ∧ assertionKept c.rargs = true ∧
+    ∃ k, chooseCert c.rargs.certAssertion c.rargs.md = .key k := by
+  unfold effA requestedA at h
+  simp only [Bool.and_eq_true] at h
+  obtain ⟨hr, ha⟩ := h
+  have h1 : c.rargs.encryptAssertion = true := hr
+  refine ⟨h1, ?_, ?_, chooseCert_available ha⟩
+  · simp [earlyReturn, h1]
+  · unfold assertionKept
+    rw [h1]
+    have := available_kept ha
+    simpa [Call.rargs] using this
+
+/-- C16, confidentiality of the assertion: whenever assertion encryption is requested (by keyword,
+    configuration or default) and the designated certificate is usable, the Response that is issued
+    carries the assertion only as an EncryptedData sealed for one of the recipient's designated
+    certificates: no clear-text assertion, advice assertion, subject identifier or attribute value —
+    for every setting of the other flags and every metadata. -/
+theorem C16_confidential_assertion (c : Call) (iss : Issued) (outerHasAttrs : Bool)
+    (heff : effA c = true) (h : createAuthnResponse c = .ok iss) :
+    (∃ k o, iss.wire.body = .sealed k o true ∧ k ∈ candidates c.certAssertion c.md) ∧
+    clearOf outerHasAttrs iss.wire = ⟨false, false, false, false, false⟩ := by
+  obtain ⟨_, he, hk, k, hc⟩ := effA_facts heff
+  have hbody : ∃ o, iss.wire.body = .sealed k o true := by
+    rcases response_inv h with ⟨he', _⟩ | ⟨_, hk', _⟩ | ⟨_, _, opsB, advB, ko, _, hs, _, hw⟩ | ⟨_, hk', _⟩
+    · rw [he] at he'; cases he'
+    · rw [hk] at hk'; cases hk'
+    · rcases encryptStep_inv hs with ⟨hn, _⟩ | ⟨k', hk', hko, _⟩
+      · rw [hc] at hn; cases hn
+      · rw [hc] at hk'; cases hk'
+        subst hko
+        exact ⟨_, by rw [hw]; rfl⟩
+    · rw [hk] at hk'; cases hk'
+  obtain ⟨o, ho⟩ := hbody
+  refine ⟨⟨k, o, ho, chooseCert_key_mem hc⟩, ?_⟩
+  unfold clearOf
+  rw [ho]
+
+/-! ### advice -/
+
+theorem outer_sealBody (ko : Option Key) (o : Outer) : (sealBody ko o).outer = o := by
+  cases ko <;> rfl
+
+theorem effAdv_facts {c : Call} (h : effAdv c = true) :
+    (∃ adv, c.rargs.advice = some adv) ∧ c.rargs.encryptedAdvice = true ∧ adviceKept c.rargs = true ∧
+    ∃ k, chooseCert c.rargs.certAdvice c.rargs.md = .key k := by
+  unfold effAdv requestedAdv at h
+  simp only [Bool.and_eq_true] at h
+  obtain ⟨⟨hr, hadv⟩, ha⟩ := h
+  have h1 : c.rargs.encryptedAdvice = true := hr
+  refine ⟨?_, h1, ?_, chooseCert_available ha⟩
+  · cases hc : c.advice with
+    | none => rw [hc] at hadv; cases hadv
+    | some adv => exact ⟨adv, hc⟩
+  · unfold adviceKept
+    rw [h1]
+    have := available_kept ha
+    simpa [Call.rargs] using this
+
+/-- the early return is taken exactly when the assertion is to be signed, not encrypted, and the Response
+    is not signed -/
+theorem earlyReturn_iff (c : Call) :
+    earlyReturn c.rargs = (c.opts.signAssertion && !c.opts.encryptAssertion && !c.opts.signResponse) := by
+  simp only [earlyReturn, Call.rargs]
+  cases c.opts.signAssertion <;> cases c.opts.encryptAssertion <;> cases c.opts.signResponse <;> rfl
+
+/-- Unless `_response` returns early, an advice assertion whose encryption is in effect leaves sealed
+    for one of the recipient's designated certificates — whatever happens to the assertion around it. -/
+theorem advice_sealed {c : Call} {iss : Issued} (heff : effAdv c = true) (he : earlyReturn c.rargs = false)
+    (h : createAuthnResponse c = .ok iss) :
+    ∃ k adv, iss.wire.body.outer.advice = some (.sealed k adv true) ∧ chooseCert c.certAdvice c.md = .key k := by
+  obtain ⟨⟨adv, hadv⟩, _, hkept, k, hc⟩ := effAdv_facts heff
+  have hB : ∀ {opsB advB}, partB c.rargs = .ok (opsB, advB) → advB = some (.sealed k (advAfterB c.rargs adv) true) := by
+    intro opsB advB hp
+    rcases partB_inv hp with ⟨hn, _⟩ | ⟨adv', _, hk', _⟩ | ⟨adv', ko, ha', _, hs, _, hb⟩
+    · rw [hadv] at hn; cases hn
+    · rw [hkept] at hk'; cases hk'
+    · rw [hadv] at ha'; cases ha'
+      rcases encryptStep_inv hs with ⟨hn, _⟩ | ⟨k', hk', hko, _⟩
+      · rw [hc] at hn; cases hn
+      · rw [hc] at hk'; cases hk'
+        subst hko
+        exact hb
+  refine ⟨k, advAfterB c.rargs adv, ?_, hc⟩
+  rcases response_inv h with ⟨he', _⟩ | ⟨_, _, hk', _⟩ | ⟨_, _, opsB, advB, ko, hp, _, _, hw⟩ | ⟨_, _, _, _, opsB, advB, hp, _, hw⟩
+  · rw [he] at he'; cases he'
+  · rw [hkept, hadv] at hk'; cases hk'
+  · rw [hw]
+    show (sealBody ko _).outer.advice = _
+    rw [outer_sealBody]
+    exact hB hp
+  · rw [hw]
+    exact hB hp
+
+/-- C16, confidentiality of the advice, FULL statement: whenever advice encryption is requested
+    (`encrypted_advice_attributes` or PEFIM, and there is an advice assertion) and the designated
+    certificate is usable, the issued Response shows neither a clear-text advice assertion nor any of
+    its attribute values. -/
+def C16_confidential_advice_full : Prop :=
+  ∀ (c : Call) (iss : Issued) (outerHasAttrs : Bool), effAdv c = true → createAuthnResponse c = .ok iss →
+    (clearOf outerHasAttrs iss.wire).adviceAssertion = false ∧ (clearOf outerHasAttrs iss.wire).attrsAdvice = false
+
+/-- … holds for every call outside the early-return class; the advice is then sealed for one of the
+    recipient's designated certificates. -/
+theorem C16_confidential_advice_partial (c : Call) (iss : Issued) (outerHasAttrs : Bool)
+    (heff : effAdv c = true) (hcls : earlyReturnClass c = false) (h : createAuthnResponse c = .ok iss) :
+    ((clearOf outerHasAttrs iss.wire).adviceAssertion = false ∧ (clearOf outerHasAttrs iss.wire).attrsAdvice = false) ∧
+    ∃ k adv, iss.wire.body.outer.advice = some (.sealed k adv true) ∧ k ∈ candidates c.certAdvice c.md := by
+  have he : earlyReturn c.rargs = false := by
+    rw [earlyReturn_iff]
+    unfold earlyReturnClass at hcls
+    rw [heff] at hcls
+    simpa using hcls
+  obtain ⟨k, adv, hadv, hc⟩ := advice_sealed heff he h
+  refine ⟨?_, k, adv, hadv, chooseCert_key_mem hc⟩
+  unfold clearOf
+  cases hb : iss.wire.body with
+  | sealed k' o b => exact ⟨rfl, rfl⟩
+  | clear o =>
+    rw [hb] at hadv
+    simp only [Body.outer] at hadv
+    simp [Outer.adviceClear, hadv, AdvBox.isClearText]
+  | wrapped o =>
+    rw [hb] at hadv
+    simp only [Body.outer] at hadv
+    simp [Outer.adviceClear, hadv, AdvBox.isClearText]
+
+/-- the witness: PEFIM, sign_assertion=True, sign_response=False, encrypt_assertion=False, the recipient
+    publishes one usable encryption certificate -/
+def earlyWitness : Call :=
+  { kw := ⟨some false, some true, some false, none, none⟩, pefim := true, md := [⟨.encryption, 1, true⟩] }
+
+theorem C16_confidential_advice_counterexample : ¬ C16_confidential_advice_full := by
+  intro hfull
+  have := hfull earlyWitness
+    { ops := [.signAssertion],
+      wire := { sig := none, body := .clear { sig := some (some (.clear ⟨false, false⟩)), advice := some (.clear ⟨false, false⟩) } },
+      trace := { branch := .early } } false (by decide) rfl
+  revert this
+  decide
+
+/-! ### a Response is issued -/
+
+theorem wellPosed_facts {c : Call} (h : wellPosed c = true) :
+    (requestedA c = true ∨ requestedAdv c = true) ∧ (requestedA c = true → effA c = true) ∧
+    (requestedAdv c = true → effAdv c = true) := by
+  unfold wellPosed at h
+  simp only [Bool.and_eq_true, Bool.or_eq_true, Bool.not_eq_true'] at h
+  obtain ⟨⟨h1, h2⟩, h3⟩ := h
+  refine ⟨h1, ?_, ?_⟩
+  · intro hr; rcases h2 with h2 | h2
+    · rw [hr] at h2; cases h2
+    · exact h2
+  · intro hr; rcases h3 with h3 | h3
+    · rw [hr] at h3; cases h3
+    · exact h3
+
+/-- advice encryption kept by `_response` on an existing advice assertion was requested -/
+theorem requestedAdv_of_kept {c : Call} (hk : adviceKept c.rargs = true) (ha : c.rargs.advice.isSome = true) :
+    requestedAdv c = true := by
+  unfold adviceKept at hk
+  simp only [Bool.and_eq_true] at hk
+  unfold requestedAdv
+  have h1 : (c.opts.encryptedAdvice || c.pefim) = true := hk.1
+  have h2 : c.advice.isSome = true := ha
+  simp [h1, h2]
+
+theorem requestedA_of_kept {c : Call} (hk : assertionKept c.rargs = true) : requestedA c = true := by
+  unfold assertionKept at hk
+  simp only [Bool.and_eq_true] at hk
+  exact hk.1
+
+/-- C16, FULL statement: every combination of the flags whose requested encryptions have a usable
+    certificate yields a Response. -/
+def C16_issued_full : Prop := ∀ c : Call, wellPosed c = true → ∃ iss, createAuthnResponse c = .ok iss
+
+/-- … holds for every call in which no encryption step meets a message that is still an object. -/
+theorem C16_issued_partial (c : Call) (hw : wellPosed c = true) (hcls : objectFormClass c = false) :
+    ∃ iss, createAuthnResponse c = .ok iss := by
+  obtain ⟨_, hA, hAdv⟩ := wellPosed_facts hw
+  unfold objectFormClass at hcls
+  simp only [Bool.or_eq_false_iff] at hcls
+  obtain ⟨hoA, hoAdv⟩ := hcls
+  -- part B succeeds
+  have hB : ∃ opsB advB, partB c.rargs = .ok (opsB, advB) := by
+    unfold partB
+    cases hadv : c.rargs.advice with
+    | none => exact ⟨_, _, rfl⟩
+    | some adv =>
+      simp only
+      cases hk : adviceKept c.rargs with
+      | false => exact ⟨_, _, rfl⟩
+      | true =>
+        have heff := hAdv (requestedAdv_of_kept hk (by rw [hadv]; rfl))
+        obtain ⟨_, _, _, k, hc⟩ := effAdv_facts heff
+        have hf : formB c.rargs = .str := by
+          rw [heff] at hoAdv
+          unfold formB signsAdvice
+          have h1 : c.rargs.selfContained = (c.opts.selfContained || c.pefim) := rfl
+          have h2 : c.rargs.signAssertion = c.opts.signAssertion := rfl
+          have h3 : c.rargs.pefim = c.pefim := rfl
+          rw [h1, h2, h3]
+          cases hs : (c.opts.selfContained || c.pefim) <;> cases hsa : c.opts.signAssertion <;> cases hp : c.pefim <;>
+            simp_all
+        simp only [Bool.not_true, Bool.false_eq_true, if_false, hc, hf, encryptStep]
+        exact ⟨_, _, rfl⟩
+  obtain ⟨opsB, advB, hB⟩ := hB
+  unfold createAuthnResponse response
+  simp only
+  cases he : earlyReturn c.rargs with
+  | true => exact ⟨_, rfl⟩
+  | false =>
+    simp only [Bool.false_eq_true, if_false]
+    cases hk : assertionKept c.rargs with
+    | true =>
+      simp only [Bool.true_or, if_true, hB]
+      have heff := hA (requestedA_of_kept hk)
+      obtain ⟨_, _, _, k, hc⟩ := effA_facts heff
+      have hf : formC c.rargs = .str := by
+        rw [heff] at hoA
+        unfold formC
+        have h1 : c.rargs.selfContained = (c.opts.selfContained || c.pefim) := rfl
+        have h2 : c.rargs.signAssertion = c.opts.signAssertion := rfl
+        rw [h1, h2]
+        cases hs : (c.opts.selfContained || c.pefim) <;> cases hsa : c.opts.signAssertion <;> simp_all
+      unfold partC
+      simp only [hc, hf, encryptStep]
+      exact ⟨_, rfl⟩
+    | false =>
+      simp only [Bool.false_or]
+      cases hc : (adviceKept c.rargs && c.rargs.advice.isSome) with
+      | true => simp only [if_true, hB, Bool.false_eq_true, if_false]; exact ⟨_, rfl⟩
+      | false => exact ⟨_, rfl⟩
+
+/-- the witness: encrypt_assertion=True, encrypt_assertion_self_contained=False, nothing signed, the
+    recipient publishes one usable encryption certificate -/
+def objectFormWitness : Call :=
+  { kw := ⟨some false, some false, some true, some false, some false⟩, md := [⟨.encryption, 1, true⟩] }
+
+theorem C16_issued_counterexample : ¬ C16_issued_full := by
+  intro hfull
+  obtain ⟨iss, h⟩ := hfull objectFormWitness (by decide)
+  have : createAuthnResponse objectFormWitness = .error .objectForm := rfl
+  rw [this] at h
+  cases h
+
+/-! ### whose key -/
+
+theorem map_clear_not_sealed {x : Option Adv} {k : Key} {adv : Adv} {b : Bool}
+    (h : x.map AdvBox.clear = some (.sealed k adv b)) : False := by
+  cases x <;> simp at h
+
+theorem partB_sealed {a : RArgs} {opsB : List Op} {advB : Option AdvBox} {k : Key} {adv : Adv} {b : Bool}
+    (hp : partB a = .ok (opsB, advB)) (hs : advB = some (.sealed k adv b)) :
+    b = true ∧ chooseCert a.certAdvice a.md = .key k := by
+  rcases partB_inv hp with ⟨_, _, hn⟩ | ⟨adv', _, _, _, hb⟩ | ⟨adv', ko, _, _, hst, _, hb⟩
+  · rw [hn] at hs; cases hs
+  · rw [hb] at hs; cases hs
+  · rw [hb] at hs
+    rcases encryptStep_inv hst with ⟨_, hko⟩ | ⟨k', hk', hko, _⟩
+    · subst hko; simp [sealAdv] at hs
+    · subst hko
+      simp only [sealAdv, Option.some.injEq, AdvBox.sealed.injEq] at hs
+      obtain ⟨h1, _, h3⟩ := hs
+      subst h1
+      exact ⟨h3.symm, hk'⟩
+
+/-- C16, "only by the recipient": whatever leaves sealed — the assertion or the advice assertion — is
+    sealed, intact, for a certificate the call designates for the recipient: the explicit one if one was
+    passed, else one of the recipient's metadata certificates whose use is not "signing".  For every call. -/
+theorem C16_key_of_recipient (c : Call) (iss : Issued) (h : createAuthnResponse c = .ok iss) :
+    (∀ k o b, iss.wire.body = .sealed k o b → b = true ∧ k ∈ candidates c.certAssertion c.md) ∧
+    (∀ k adv b, iss.wire.body.outer.advice = some (.sealed k adv b) → b = true ∧ k ∈ candidates c.certAdvice c.md) := by
+  rcases response_inv h with ⟨_, _, hw⟩ | ⟨_, _, _, _, hw⟩ | ⟨_, _, opsB, advB, ko, hp, hst, _, hw⟩ | ⟨_, _, _, _, opsB, advB, hp, _, hw⟩
+  · rw [hw]
+    refine ⟨fun k o b hb => (by cases hb), fun k adv b hb => (map_clear_not_sealed hb).elim⟩
+  · rw [hw]
+    refine ⟨fun k o b hb => (by cases hb), fun k adv b hb => (map_clear_not_sealed hb).elim⟩
+  · rw [hw]
+    constructor
+    · intro k o b hb
+      rcases encryptStep_inv hst with ⟨_, hko⟩ | ⟨k', hk', hko, _⟩
+      · subst hko; cases hb
+      · subst hko
+        simp only [wireOf, sealBody, Body.sealed.injEq] at hb
+        obtain ⟨h1, _, h3⟩ := hb
+        subst h1
+        exact ⟨h3.symm, chooseCert_key_mem hk'⟩
+    · intro k adv b hb
+      have hb' : advB = some (.sealed k adv b) := by
+        have : (sealBody ko { sig := if c.rargs.signAssertion then some advB else none, advice := advB }).outer.advice = advB := by
+          rw [outer_sealBody]
+        exact this ▸ hb
+      obtain ⟨h1, h2⟩ := partB_sealed hp hb'
+      exact ⟨h1, chooseCert_key_mem h2⟩
+  · rw [hw]
+    refine ⟨fun k o b hb => (by cases hb), ?_⟩
+    intro k adv b hb
+    obtain ⟨h1, h2⟩ := partB_sealed hp hb
+    exact ⟨h1, chooseCert_key_mem h2⟩
+
+/-! ### signatures: order and validity at the recipient -/
+
+/-- C16, signature order (1): in every call the successful sign / encrypt operations happen in the order
+    advice signed, advice encrypted, assertion signed, assertion encrypted, Response signed — each at most
+    once: an assertion is signed before it is encrypted, the Response after everything else. -/
+theorem C16_ops_ordered (c : Call) (iss : Issued) (h : createAuthnResponse c = .ok iss) :
+    opsOrdered iss.ops = true := by
+  have hB : ∀ {opsB advB}, partB c.rargs = .ok (opsB, advB) →
+      opsB = [] ∨ (∃ k, opsB = [.encAdvice k]) ∨ opsB = [.signAdvice] ∨ (∃ k, opsB = [.signAdvice, .encAdvice k]) := by
+    intro opsB advB hp
+    rcases partB_inv hp with ⟨_, ho, _⟩ | ⟨_, _, _, ho, _⟩ | ⟨_, ko, _, _, _, ho, _⟩
+    · exact Or.inl ho
+    · exact Or.inl ho
+    · rw [ho]
+      cases signsAdvice c.rargs <;> cases ko <;> simp [optOp, keyOp]
+  rcases response_inv h with ⟨_, ho, _⟩ | ⟨_, _, _, ho, _⟩ | ⟨_, _, opsB, advB, ko, hp, _, ho, _⟩ | ⟨_, _, _, _, opsB, advB, hp, ho, _⟩
+  · rw [ho]; rfl
+  · rw [ho]
+    cases c.rargs.sign <;> cases c.rargs.toSign <;> rfl
+  · rw [ho]
+    rcases hB hp with hb | ⟨k, hb⟩ | hb | ⟨k, hb⟩ <;> subst hb <;>
+      cases c.rargs.signAssertion <;> cases ko <;> cases c.rargs.sign <;>
+      simp [optOp, keyOp, opsOrdered, Op.rank]
+  · rw [ho]
+    rcases hB hp with hb | ⟨k, hb⟩ | hb | ⟨k, hb⟩ <;> subst hb <;>
+      cases c.rargs.toSign <;> cases c.rargs.sign <;>
+      simp [optOp, opsOrdered, Op.rank]
+
+/-- C16, signature order (2): in every call each signature that is present was computed over exactly
+    what is finally sent — the Response signature over the body as it leaves (assertion already sealed),
+    the assertion signature over the assertion with its advice as it leaves (advice already sealed) and
+    before the assertion itself is sealed. -/
+theorem C16_signature_order (c : Call) (iss : Issued) (h : createAuthnResponse c = .ok iss) :
+    (∀ b, iss.wire.sig = some b → b = iss.wire.body) ∧
+    (∀ v, iss.wire.body.outer.sig = some v → v = iss.wire.body.outer.advice) := by
+  have hwire : ∀ (s : Bool) (body : Body), ∀ b, (wireOf s body).sig = some b → b = (wireOf s body).body := by
+    intro s body b hb
+    cases s <;> simp [wireOf] at hb ⊢
+    exact hb.symm
+  rcases response_inv h with ⟨_, _, hw⟩ | ⟨_, _, _, _, hw⟩ | ⟨_, _, opsB, advB, ko, _, _, _, hw⟩ | ⟨_, _, _, _, opsB, advB, _, _, hw⟩
+  · rw [hw]
+    refine ⟨fun b hb => (by cases hb), fun v hv => ?_⟩
+    simp only [Body.outer, Option.some.injEq] at hv ⊢
+    exact hv.symm
+  · rw [hw]
+    refine ⟨hwire _ _, fun v hv => ?_⟩
+    simp only [wireOf, Body.outer] at hv ⊢
+    split at hv
+    · exact (Option.some.inj hv).symm
+    · cases hv
+  · rw [hw]
+    refine ⟨hwire _ _, fun v hv => ?_⟩
+    simp only [wireOf, outer_sealBody] at hv ⊢
+    split at hv
+    · exact (Option.some.inj hv).symm
+    · cases hv
+  · rw [hw]
+    refine ⟨hwire _ _, fun v hv => ?_⟩
+    simp only [wireOf, Body.outer] at hv ⊢
+    split at hv
+    · exact (Option.some.inj hv).symm
+    · cases hv
+
+/-- the advice as it can leave a well-posed call: absent, clear and schema-valid (its encryption was not
+    requested), or sealed for the recipient -/
+def AdvOk (c : Call) (advB : Option AdvBox) : Prop :=
+  (c.advice = none ∧ advB = none) ∨
+  (∃ adv, requestedAdv c = false ∧ advB = some (.clear adv) ∧ adv.schemaValid = true) ∨
+  (∃ k adv, advB = some (.sealed k adv true) ∧ k ∈ candidates c.certAdvice c.md)
+
+theorem AdvOk.schemaOk {c : Call} {advB : Option AdvBox} {sig : Option (Option AdvBox)} (h : AdvOk c advB) :
+    Outer.schemaOk { sig := sig, advice := advB } = true := by
+  rcases h with ⟨_, h⟩ | ⟨adv, _, h, hv⟩ | ⟨k, adv, h, _⟩
+  · subst h; rfl
+  · subst h; simpa [Outer.schemaOk, AdvBox.schemaOk] using hv
+  · subst h; rfl
+
+/-- What a well-posed call outside the early-return class issues: the assertion sealed for the recipient
+    (advice inside absent, clear-by-request or sealed), or — when only advice encryption was requested —
+    the assertion in clear around a sealed advice; signatures as requested. -/
+theorem wellPosed_shape {c : Call} {iss : Issued} (hw : wellPosed c = true) (hcls : earlyReturnClass c = false)
+    (h : createAuthnResponse c = .ok iss) :
+    ∃ advB, AdvOk c advB ∧
+      ((∃ k, k ∈ candidates c.certAssertion c.md ∧ requestedA c = true ∧
+          iss.wire = wireOf c.opts.signResponse
+            (.sealed k { sig := if c.opts.signAssertion then some advB else none, advice := advB } true)) ∨
+       (requestedA c = false ∧ (∃ k adv, advB = some (.sealed k adv true)) ∧
+          iss.wire = wireOf c.opts.signResponse
+            (.clear { sig := if c.opts.signAssertion then some advB else none, advice := advB }))) := by
+  obtain ⟨hsome, hA, hAdv⟩ := wellPosed_facts hw
+  -- the early return is not taken
+  have he : earlyReturn c.rargs = false := by
+    cases hee : earlyReturn c.rargs with
+    | false => rfl
+    | true =>
+      exfalso
+      rw [earlyReturn_iff] at hee
+      simp only [Bool.and_eq_true, Bool.not_eq_true'] at hee
+      obtain ⟨⟨hsa, hea⟩, hsr⟩ := hee
+      have hra : requestedA c = false := hea
+      rcases hsome with h1 | h1
+      · rw [hra] at h1; cases h1
+      · have := hAdv h1
+        unfold earlyReturnClass at hcls
+        simp only [this, hsa, hea, hsr] at hcls
+        cases hcls
+  -- the advice as part B leaves it
+  have hB : ∀ {opsB advB}, partB c.rargs = .ok (opsB, advB) → AdvOk c advB := by
+    intro opsB advB hp
+    cases hr : requestedAdv c with
+    | true =>
+      have heff := hAdv hr
+      obtain ⟨⟨adv, hadv⟩, _, hkept, k, hc⟩ := effAdv_facts heff
+      right; right
+      rcases partB_inv hp with ⟨hn, _⟩ | ⟨adv', _, hk', _⟩ | ⟨adv', ko, _, _, hs, _, hb⟩
+      · rw [hadv] at hn; cases hn
+      · rw [hkept] at hk'; cases hk'
+      · rcases encryptStep_inv hs with ⟨hn, _⟩ | ⟨k', hk', hko, _⟩
+        · rw [hc] at hn; cases hn
+        · subst hko
+          exact ⟨k', _, hb, chooseCert_key_mem hk'⟩
+    | false =>
+      rcases partB_inv hp with ⟨hn, _, hb⟩ | ⟨adv', ha', _, _, hb⟩ | ⟨adv', ko, ha', hk', _⟩
+      · exact Or.inl ⟨hn, hb⟩
+      · right; left
+        refine ⟨adv', hr, hb, ?_⟩
+        -- not PEFIM (PEFIM requests advice encryption), so it is the schema-valid assertion handed in
+        have ha'' : c.advice = some adv' := ha'
+        unfold requestedAdv at hr
+        rw [ha''] at hr
+        simp only [Option.isSome_some, Bool.and_true, Bool.or_eq_false_iff] at hr
+        unfold Call.advice at ha''
+        rw [hr.2] at ha''
+        simp only [Bool.false_eq_true, if_false] at ha''
+        split at ha''
+        · cases ha''; rfl
+        · cases ha''
+      · exfalso
+        have := requestedAdv_of_kept hk' (by rw [ha']; rfl)
+        rw [hr] at this; cases this
+  have hsr : c.rargs.sign = c.opts.signResponse := rfl
+  have hsa : c.rargs.signAssertion = c.opts.signAssertion := rfl
+  rcases response_inv h with ⟨he', _⟩ | ⟨_, hkA, hkAdv, _, _⟩ | ⟨_, hkA, opsB, advB, ko, hp, hst, _, hwr⟩ | ⟨_, hkA, hkAdv, hsomeadv, opsB, advB, hp, _, hwr⟩
+  · rw [he] at he'; cases he'
+  · -- nothing kept: then nothing was requested
+    exfalso
+    rcases hsome with h1 | h1
+    · obtain ⟨_, _, hk, _⟩ := effA_facts (hA h1)
+      rw [hk] at hkA; cases hkA
+    · obtain ⟨⟨adv, hadv⟩, _, hk, _⟩ := effAdv_facts (hAdv h1)
+      rw [hk, hadv] at hkAdv; cases hkAdv
+  · have hreq := requestedA_of_kept hkA
+    obtain ⟨_, _, _, k, hc⟩ := effA_facts (hA hreq)
+    refine ⟨advB, hB hp, Or.inl ⟨k, chooseCert_key_mem hc, hreq, ?_⟩⟩
+    rcases encryptStep_inv hst with ⟨hn, _⟩ | ⟨k', hk', hko, _⟩
+    · rw [hc] at hn; cases hn
+    · rw [hc] at hk'; cases hk'
+      subst hko
+      rw [hwr, hsr, hsa]
+      rfl
+  · have hreq : requestedA c = false := by
+      cases hr : requestedA c with
+      | false => rfl
+      | true =>
+        obtain ⟨_, _, hk, _⟩ := effA_facts (hA hr)
+        rw [hk] at hkA; cases hkA
+    have hradv := requestedAdv_of_kept hkAdv hsomeadv
+    have hts : c.rargs.toSign = c.opts.signAssertion := by
+      have : c.opts.encryptAssertion = false := hreq
+      simp [Call.rargs, this]
+    refine ⟨advB, hB hp, Or.inr ⟨hreq, ?_, ?_⟩⟩
+    · rcases hB hp with ⟨hn, _⟩ | ⟨adv, hr, _⟩ | ⟨k, adv, hb, _⟩
+      · rw [show c.rargs.advice = c.advice from rfl, hn] at hsomeadv; cases hsomeadv
+      · rw [hradv] at hr; cases hr
+      · exact ⟨k, adv, hb⟩
+    · rw [hwr, hsr, hts]
 
 end C16
